@@ -39,5 +39,5 @@ ASSUMPTIONS = [
 META = {
     "technique": "Coq proofs over an executable Q model of BatteryDistributionAlgorithm (bookkeeping invariants of reservation / deficit covering / greedy top-up / guarded inverter split by induction over the component lists; fuel-sufficiency of the covering loop; permutation lemmas for the sorts; sign flip for supply) + T-tie of the zero tolerance + differential correspondence: the real distribute_power run on exact rationals (duck-typed records, lib.exact.X) vs the model evaluated inside Coq by vm_compute + float run vs exact run + property oracle on the implementation's output",
     "level_text": "Machine-checked, closed under the global context, no run-time hypotheses: C01_manager_conserves (for every request the modelled BatteryManager serves: set_power calls + excess == request, succeeded power == sum of the calls), C01_reported_is_commanded_under_faults (per-inverter set_power outcome accepted / OperationOutOfRange / other ApiClientError / timeout: succeeded power == sum of the ACCEPTED set-points, failed power == sum of the rejected ones, succeeded + failed + excess == request; result accounting = model/Accounting.v of C15, imported read-only), C01_sum (set-points + remainder == request exactly in Q, for EVERY data set and every pow function), C01_reported_is_commanded (request - remainder == sum of set-points, the BatteryManager step), C01_sign (every set-point has the request's sign or is zero: exact, for all well-formed data), C01_remainder (|remainder| <= |request| exactly and sgn*remainder >= -(n*eps + 2*rel_tol*pool inclusion bound) for every admitted request, with or without deficits), C01_left_over_bound (request - assigned >= -n*eps before the greedy top-up). The model is tied to /repo by running the real algorithm and the model on the same generated configurations (1-4 groups x 1-3 batteries x 1-3 inverters, SoC at/over limits, zero exclusion bounds, zero inclusion bounds, equal sort keys, requests at the advertised exclusion bound / inclusion bound / midpoints / beyond / between the enforced and the advertised exclusion bound, exponents 0-3 exact, non-integer exponents on floats) and comparing exactly; the clauses are also judged directly on the implementation's output.",
-    "level_note": "Reuse stream: sequences of distribute_power calls on ONE list of InvBatPair and one algorithm instance whose AggregatedBatteryData / inverter objects are mutated in place between the calls (soc, soc limits, capacity, power bounds, inverter bounds); every call is judged against, and compared with the model on, the CURRENT field values. Manager stream (a third of it built through the real BatteryManager.__init__ + start()/_create_channels on real channels and LatestValueCache objects, ids whose set order differs from sorted order; fake API with per-inverter faults, acknowledge latency and a caller mutating the Request object in flight): the real BatteryManager (__new__ + injected maps, mutable fake caches, fake API client recording set_power) is driven through distribute_power over sequences of battery / inverter data updates (one side only, both, equal timestamps) and requests of both signs inside and beyond the inclusion bounds in both adjust_power modes; the C01/C02 clauses are judged on the recorded set_power calls and the Result against the LATEST data, and model/DistMgr.v (enforced bounds check + algorithm + subtraction + Accounting.bat_result under the per-inverter outcome vector, set order recorded from the run) is compared exactly per request; about a third of the requests carry API faults (pure out-of-range rejections, one inverter of a multi-inverter set failing, mixed errors, timeouts on virtual time) and the clause reported-as-set (succeeded == accepted set-points, failed == rejected set-points, kind Success iff nothing was rejected) is judged on the recorded calls. Full (no _partial theorem left). Slack: only the lower half of the remainder clause, explicit in the theorem and below a microwatt for realistic pools. Trusted: Coq kernel + vm_compute, tools/translate.py (eps), the harness (generator coverage bounds the tie), lib.exact.X, the source-line tracer used only for statistics. math.isclose / is_close_to_zero are modelled as exact rational threshold tests; generated data stay away from the thresholds except where intended. The unchanged tree violated C01 (findings F1, F2: fixed by commits c773a4e, fcfd05e; witnesses in corpus/C01).",
+    "level_note": "Reuse stream: sequences of distribute_power calls on ONE list of InvBatPair and one algorithm instance whose AggregatedBatteryData / inverter objects are mutated in place between the calls (soc, soc limits, capacity, power bounds, inverter bounds); every call is judged against, and compared with the model on, the CURRENT field values. Manager stream (a third of it built through the real BatteryManager.__init__ + start()/_create_channels on real channels and LatestValueCache objects, ids whose set order differs from sorted order; fake API with per-inverter faults, acknowledge latencies below and above an api_power_request_timeout drawn from {0.25, 0.5, 1.5, 2, 5} s (accepted = not rejected and acknowledged before the time-out), pairs of requests for disjoint battery sets in flight together on one manager (each Result judged against its own set_power calls), and a caller mutating the Request object in flight): the real BatteryManager (__new__ + injected maps, mutable fake caches, fake API client recording set_power) is driven through distribute_power over sequences of battery / inverter data updates (one side only, both, equal timestamps) and requests of both signs inside and beyond the inclusion bounds in both adjust_power modes; the C01/C02 clauses are judged on the recorded set_power calls and the Result against the LATEST data, and model/DistMgr.v (enforced bounds check + algorithm + subtraction + Accounting.bat_result under the per-inverter outcome vector, set order recorded from the run) is compared exactly per request; about a third of the requests carry API faults (pure out-of-range rejections, one inverter of a multi-inverter set failing, mixed errors, timeouts on virtual time) and the clause reported-as-set (succeeded == accepted set-points, failed == rejected set-points, kind Success iff nothing was rejected) is judged on the recorded calls. Full (no _partial theorem left). Slack: only the lower half of the remainder clause, explicit in the theorem and below a microwatt for realistic pools. Trusted: Coq kernel + vm_compute, tools/translate.py (eps), the harness (generator coverage bounds the tie), lib.exact.X, the source-line tracer used only for statistics. math.isclose / is_close_to_zero are modelled as exact rational threshold tests; generated data stay away from the thresholds except where intended. The unchanged tree violated C01 (findings F1, F2: fixed by commits c773a4e, fcfd05e; witnesses in corpus/C01).",
 }
